@@ -4,5 +4,9 @@ package gosim
 
 const RaceEnabled = false
 
-func raceOff() {}
-func raceOn()  {}
+// RaceOff / RaceOn bracket harness-internal synchronisation (recorders, stubs,
+// models) so that, in -race builds, it creates no happens-before edges between
+// program goroutines. No-ops in normal builds. Pair them; put the protected
+// code in a //go:norace function and avoid maps there.
+func RaceOff() {}
+func RaceOn()  {}
